@@ -3,6 +3,8 @@ package checks
 import (
 	"bytes"
 	"fmt"
+	"os"
+	"os/exec"
 	"strings"
 
 	"github.com/wkhere/bcl"
@@ -145,7 +147,7 @@ type c06TgtCase struct {
 
 func (c *c06TgtCase) Key() string { return fmt.Sprintf("%d|%d|%v", c.Prog, c.Target, c.Rev) }
 
-var c06TgtCaseProgs = []string{
+var c06TargetProgs = []string{
 	"def t { x = 1 }\nbind t -> struct",
 	"def t \"nm\" { x = 1; y = 2.5; foo_bar = \"s\"; def in { x = 2 } }\nbind t -> struct",
 	"def t { x = 1 }\ndef t \"b\" { x = 2; def in \"p\" { x = 3 } }\nbind t:all -> slice",
@@ -162,7 +164,7 @@ var subC06Targets = &fw.Sub{Name: "c06.targets", New: func() fw.Case { return &c
 	if c.Rev {
 		idx[0], idx[2] = idx[2], idx[0]
 	}
-	src := c06TgtCaseProgs[c.Prog]
+	src := c06TargetProgs[c.Prog]
 	for _, i := range idx {
 		for _, file := range []bool{false, true} {
 			var pan any
@@ -184,6 +186,81 @@ var subC06Targets = &fw.Sub{Name: "c06.targets", New: func() fw.Case { return &c
 	fw.TallyNontrivial()
 	return nil
 }}
+
+// c06.coldpairs: two Unmarshal calls in a process that has done nothing before, into two struct types that print
+// the same name ("checks.T": the package-level one and the ones declared inside functions) in every order: whatever the
+// library remembers about a type from the first call must not make the second call panic.
+type c06Cold struct {
+	Prog int `json:"prog"`
+	I    int `json:"i"`
+	J    int `json:"j"`
+}
+
+func (c *c06Cold) Key() string { return fmt.Sprintf("%d|%d|%d", c.Prog, c.I, c.J) }
+
+func c06SameNameTargets() []int {
+	var idx []int
+	for i, t := range c15Targets() {
+		if strings.HasPrefix(t.name, "*T{") || strings.HasPrefix(t.name, "*[]T{") || t.name == "*T" || t.name == "*[]T" {
+			idx = append(idx, i)
+		}
+	}
+	return idx
+}
+
+var subC06Cold = &fw.Sub{Name: "c06.coldpairs", New: func() fw.Case { return &c06Cold{} }, Exec: func(cs fw.Case) *fw.Fail {
+	c := cs.(*c06Cold)
+	cmd := exec.Command(os.Args[0], "c06-cold", fmt.Sprint(c.Prog), fmt.Sprint(c.I), fmt.Sprint(c.J))
+	var out bytes.Buffer
+	cmd.Stdout = &out
+	cmd.Stderr = &out
+	err := cmd.Run()
+	txt := out.String()
+	if i := strings.Index(txt, "COLD-PANIC "); i >= 0 {
+		return fw.Failf("two Unmarshal calls in a fresh process return a result or an error", "%s", fw.Trunc(strings.TrimSpace(txt[i+len("COLD-PANIC "):]), 500))
+	}
+	if err != nil || !strings.Contains(txt, "COLD-OK") {
+		return fw.Failf("the fresh process completes", "err=%v output %q", err, fw.Trunc(txt, 400))
+	}
+	fw.Tally("cold_processes", 1)
+	fw.TallyOutcome("coldpair-no-panic")
+	fw.TallyNontrivial()
+	return nil
+}}
+
+func init() {
+	fw.Commands["c06-cold"] = func(args []string) int {
+		var p, i, j int
+		if len(args) != 3 {
+			return 2
+		}
+		fmt.Sscan(args[0], &p)
+		fmt.Sscan(args[1], &i)
+		fmt.Sscan(args[2], &j)
+		ts := c15Targets()
+		src := c06TargetProgs[p]
+		for _, k := range []int{i, j} {
+			for _, file := range []bool{false, true} {
+				var pan any
+				func() {
+					defer func() { pan = recover() }()
+					var out, log bytes.Buffer
+					if file {
+						bcl.UnmarshalFile(impl.NewScriptFile(src, impl.Chunks(len(src)/2)), ts[k].mk(), bcl.OptOutput(&out), bcl.OptLogger(&log))
+					} else {
+						bcl.Unmarshal([]byte(src), ts[k].mk(), bcl.OptOutput(&out), bcl.OptLogger(&log))
+					}
+				}()
+				if pan != nil {
+					fmt.Printf("COLD-PANIC first target %s, then %s: Unmarshal into %s (file=%v) panics: %v\n", ts[i].name, ts[j].name, ts[k].name, file, pan)
+					return 0
+				}
+			}
+		}
+		fmt.Println("COLD-OK")
+		return 0
+	}
+}
 
 var subC06 = &fw.Sub{Name: "c06.run", New: func() fw.Case { return &c06Case{} }, Exec: c06Exec}
 
@@ -234,9 +311,9 @@ func init() {
 		Level: "exploration",
 		Rule: "bounded-exhaustive: (a) every byte string of length <=L over one representative per lexer character class (38 symbols), bare and inside `print _` and `def a{_}`; " +
 			"(b) every token string of length <=T over a 47-symbol vocabulary that includes the malformed literals; (c) every single-token and single-byte deviation (delete/insert/replace/transpose) of every core-corpus program; " +
-			"(d) scaled programs just below/at/above each implementation limit; (e) 6 programs unmarshalled (bytes and file variant) into every one of the ~1100 target values of the C15 table, each preceded / followed by its neighbours in the table. Each through Parse+Interpret+Unmarshal under recover, (c),(d) and the short part of (a),(b) also through ParseFile/InterpretFile/UnmarshalFile in a worker process whose death is attributed to the input in flight. " +
+			"(d) scaled programs just below/at/above each implementation limit; (e) 6 programs unmarshalled (bytes and file variant) into every one of the ~1100 target values of the C15 table, each preceded / followed by its neighbours in the table; (f) every ordered pair of the ~20 struct types that print the same name, each pair in a fresh process. Each through Parse+Interpret+Unmarshal under recover, (c),(d) and the short part of (a),(b) also through ParseFile/InterpretFile/UnmarshalFile in a worker process whose death is attributed to the input in flight. " +
 			"Invariant oracle: returns, no panic, process alive, result or error. distinct_nontrivial = distinct inputs executed.",
-		Subs:           []*fw.Sub{subC06, subC06Targets},
+		Subs:           []*fw.Sub{subC06, subC06Targets, subC06Cold},
 		BudgetQuick:    170,
 		BudgetThorough: 1800,
 		Assumptions: []string{"inputs whose legitimate result needs more than 2^20 bytes of repeated string are excluded (decided by the reference model), as the property states",
@@ -248,8 +325,19 @@ func init() {
 				}
 				return !c.Expired()
 			}
+			// (f) ordered pairs of same-named struct types, each pair in a fresh process
+			same := c06SameNameTargets()
+			for _, p := range []int{0, 1, 2} {
+				for _, i := range same {
+					for _, j := range same {
+						if i != j {
+							c.Do(subC06Cold, &c06Cold{Prog: p, I: i, J: j})
+						}
+					}
+				}
+			}
 			// (e) Unmarshal into every target of the C15 table
-			for p := range c06TgtCaseProgs {
+			for p := range c06TargetProgs {
 				for t := range c15Targets() {
 					c.Do(subC06Targets, &c06TgtCase{Prog: p, Target: t})
 					c.Do(subC06Targets, &c06TgtCase{Prog: p, Target: t, Rev: true})
